@@ -202,7 +202,9 @@ def y_scripts(seed, count):
                 continue
             if stt[o] != "live":
                 continue
-            if r < 0.5 and ln[o] > 0:
+            if r < 0.04:
+                steps.append("S op=%s o=%s" % (rnd.choice(["SelfCopyAssign", "SelfMoveAssign"]), o))
+            elif r < 0.5 and ln[o] > 0:
                 steps.append("S op=Write o=%s i=%d v=%d" % (o, rnd.randrange(1, ln[o] + 1), rnd.randrange(1, 10)))
             elif r < 0.75:
                 k = rnd.choice([0, 1, 2, 3, 7, 16, 40, 64])
